@@ -280,8 +280,20 @@ def frame_violations(I, snap):
     return sorted(out)
 
 
+def _hook(I, fn, args):
+    """a contract hook is harness code about the loop's locals: if it raises, the loop is no
+    longer the one the contract was written for (the function leaves the verified subset;
+    the bounded stand-in takes over) -- never an exception of the code under test"""
+    from .interp import RaiseSig
+
+    try:
+        return I.call(fn, args, {}, None)
+    except RaiseSig as e:
+        raise OutsideSubset(f"loop contract hook {getattr(fn, 'qualname', fn)!s} failed ({e}): the loop no longer matches its contract")
+
+
 def _call_bool(I, fn, args):
-    r = I.call(fn, args, {}, None)
+    r = _hook(I, fn, args)
     if isinstance(r, SBool):
         return r.t
     return bool(I.truthy(r))
@@ -320,7 +332,7 @@ def cut_loop(I, node, env, spec):
 
     init = spec.get("init")
     if init is not None:
-        I.call(init, [vc, _vars_dict(I, env, {"$iter": seq, "$k": 0} if is_for else None)], {}, None)
+        _hook(I, init, [vc, _vars_dict(I, env, {"$iter": seq, "$k": 0} if is_for else None)])
     if inv is not None:
         ctx.check(_call_bool(I, inv, [vc, _vars_dict(I, env, {"$iter": seq, "$k": 0} if is_for else None)]), f"{name}.inv_init", where)
 
@@ -332,7 +344,7 @@ def cut_loop(I, node, env, spec):
     hh = spec.get("havoc_heap")
     if hh is not None:
         # heap locations the body modifies hold arbitrary values at an arbitrary iteration
-        I.call(hh, [vc, _vars_dict(I, env, {"$iter": seq} if is_for else None)], {}, None)
+        _hook(I, hh, [vc, _vars_dict(I, env, {"$iter": seq} if is_for else None)])
     # soundness of the cut: every other local the body assigns holds an unknown value at an
     # arbitrary iteration (harmless if the body assigns it before using it)
     target_names = assigned_names([node.target]) if is_for else set()
@@ -372,7 +384,7 @@ def cut_loop(I, node, env, spec):
         if is_for:
             ctx.assume(extra["$k"].t == zint(int_term(n)))
         if head is not None:
-            I.call(head, [vc, _vars_dict(I, env, extra), False], {}, None)
+            _hook(I, head, [vc, _vars_dict(I, env, extra), False])
         I.exec_block(node.orelse, env)
         return
 
@@ -380,15 +392,15 @@ def cut_loop(I, node, env, spec):
         x = I.lib.getitem(I, seq, extra["$k"], node)
         I.assign_target(node.target, x, env)
     if head is not None:
-        I.call(head, [vc, _vars_dict(I, env, extra), True], {}, None)
+        _hook(I, head, [vc, _vars_dict(I, env, extra), True])
     modifies = spec.get("modifies")
-    exempt = list(I.lib.iterate(I, I.call(modifies, [vc, _vars_dict(I, env, extra)], {}, None), node)) if modifies is not None else []
+    exempt = list(I.lib.iterate(I, _hook(I, modifies, [vc, _vars_dict(I, env, extra)]), node)) if modifies is not None else []
     # locals the contract havocs are arbitrary at the head already
     exempt = exempt + [env.vars[n_] for n_ in listed if n_ in env.vars]
     snap = heap_snapshot(I, env, exempt)
     v0 = None
     if variant is not None:
-        v0 = I.call(variant, [vc, _vars_dict(I, env, extra)], {}, None)
+        v0 = _hook(I, variant, [vc, _vars_dict(I, env, extra)])
     try:
         I.exec_block(node.body, env)
     except BreakSig:
@@ -406,11 +418,11 @@ def cut_loop(I, node, env, spec):
         ctx.undecided(f"{name}.frame[{path}]", where, f"the loop body changes {path}, which exists before the loop and is neither havocked at the head nor listed in the loop contract's frame: an arbitrary iteration is not covered by the cut")
     post = spec.get("post")
     if post is not None:
-        I.call(post, [vc, _vars_dict(I, env, extra)], {}, None)
+        _hook(I, post, [vc, _vars_dict(I, env, extra)])
     if inv is not None:
         ctx.check(_call_bool(I, inv, [vc, _vars_dict(I, env, extra)]), f"{name}.inv_step", where)
     if variant is not None:
-        v1 = I.call(variant, [vc, _vars_dict(I, env, extra)], {}, None)
+        v1 = _hook(I, variant, [vc, _vars_dict(I, env, extra)])
         t0, t1 = zint(int_term(v0)), zint(int_term(v1))
         ctx.check(z3.And(t1 < t0, t0 >= 0) if not (isinstance(t0, int) and isinstance(t1, int)) else (t1 < t0 and t0 >= 0), f"{name}.variant", where)
     ctx.cover(f"{name}.iteration")
@@ -448,7 +460,7 @@ def cut_comprehension(I, node, env, spec):
         seq = ListV(view) if isinstance(view, list) else view
     init, inv, head, post, havoc = spec.get("init"), spec.get("inv"), spec.get("head"), spec.get("post"), spec.get("havoc")
     if init is not None:
-        I.call(init, [vc, _vars_dict(I, env, {"$iter": seq, "$k": 0})], {}, None)
+        _hook(I, init, [vc, _vars_dict(I, env, {"$iter": seq, "$k": 0})])
     if inv is not None:
         ctx.check(_call_bool(I, inv, [vc, _vars_dict(I, env, {"$iter": seq, "$k": 0})]), f"{name}.inv_init", where)
     if isinstance(havoc, DictV):
@@ -472,18 +484,18 @@ def cut_comprehension(I, node, env, spec):
         for kk, vv in cenv.vars.items():
             both[kk] = vv
         if head is not None:
-            I.call(head, [vc, _vars_dict(I, env, both), True], {}, None)
+            _hook(I, head, [vc, _vars_dict(I, env, both), True])
         elt = I.eval(node.elt, cenv)
         both["$elt"] = elt
         both["$k"] = mk_int(k + 1)
         if post is not None:
-            I.call(post, [vc, _vars_dict(I, env, both)], {}, None)
+            _hook(I, post, [vc, _vars_dict(I, env, both)])
         if inv is not None:
             ctx.check(_call_bool(I, inv, [vc, _vars_dict(I, env, both)]), f"{name}.inv_step", where)
         ctx.cover(f"{name}.iteration")
         raise CutSig(name)
     ctx.assume(k == zint(int_term(n)))
     if head is not None:
-        I.call(head, [vc, _vars_dict(I, env, extra), False], {}, None)
+        _hook(I, head, [vc, _vars_dict(I, env, extra), False])
     f = z3.Function(ctx.fresh_name(f"{name}.result"), z3.IntSort(), ObjSort)
     return SymListV(SeqV(int_term(n) if isinstance(int_term(n), int) else zint(int_term(n)), lambda i, f=f: Opaque(f(zint(i)), "elem"), "list", ident=ctx.fresh_name(name)))
